@@ -3,7 +3,7 @@
    LR/Automaton_proofs.v about the models LR/Driver.v (ParserState.feed_token) and
    LR/Automaton.v (lalr_analysis.py). *)
 From Coq Require Import List Arith Bool ZArith.
-From LV Require Import Cfg.Grammar LR.Driver LR.Driver_proofs LR.Automaton LR.Automaton_proofs LR.Automaton_wf LR.Automaton_la LR.Automaton_complete LR.La_complete LR.Lalr_complete LR.Lr1Merge LR.Lr1Merge_proofs LR.Lr1Merge_converse.
+From LV Require Import Cfg.Grammar LR.Driver LR.Driver_proofs LR.Automaton LR.Automaton_proofs LR.Automaton_wf LR.Automaton_la LR.Automaton_complete LR.La_complete LR.Lalr_complete LR.Lr1Merge LR.Lr1Merge_proofs LR.Lr1Merge_converse LR.Digraph LR.Digraph_proofs.
 Import ListNotations.
 
 (* "accepts only sentences", for EVERY table in which a reduce by r is only offered in states
@@ -292,6 +292,69 @@ Theorem C02_la_is_lalr1 (rules : list rule) (tEND fuel : nat) (A : lr0) (r0 root
    exists g, goto_star A 0 g = Some q /\ lr1_valid rules r0 tEND g i (length (rhs (rule_at rules i))) a).
 Proof. exact (la_is_lalr1 rules tEND fuel A r0 rootnt start q a i). Qed.
 Print Assumptions C02_la_is_lalr1.
+
+(* ---- Round 10: digraph() / traverse() AS CODED (LR/Digraph.v: stack S, index map N, F as a map
+   from nodes to cells of a heap of set objects, low-link update, SCC pop, aliasing F[x] = G[x]) ----
+   For every ACYCLIC relation (rk strictly decreasing along edges, bounded by the number of nodes),
+   one set object per node: the coded algorithm terminates within its fuel (n+1 nested calls), no
+   assert fails, every node ends in its own cell, and F x is EXACTLY the least solution [ls] of
+   F x = G x U U{F y | y in R x} - sound and complete. *)
+Theorem C02_digraph_coded_acyclic (n : nat) (R G : list (list nat)) (rk : nat -> nat) :
+  length G = n ->
+  (forall x y, In y (nth x R []) -> y < n) -> (forall x y, In y (nth x R []) -> rk y < rk x) ->
+  (forall x, x < n -> rk x < S n) ->
+  exists F H, digraph_coded n R (seq 0 n) G = Some (F, H) /\
+              length F = n /\ length H = n /\
+              (forall x, x < n -> nth x F None = Some x) /\
+              forall x, x < n -> forall t, In t (fset F H x) <-> ls R G x t.
+Proof. exact (digraph_coded_acyclic n R G rk). Qed.
+Print Assumptions C02_digraph_coded_acyclic.
+
+(* compute_lookaheads as coded = two calls, the second one receiving the first one's F (same cells,
+   same heap) as its G: for acyclic reads and includes the Follow sets computed by the CODE are the
+   least solution over the Read sets computed by the code, which are the least solution over DR -
+   i.e. exactly what C02_la_closure states for the specification-level model. *)
+Theorem C02_digraph_twice_acyclic (n : nat) (R1 R2 G : list (list nat)) (rk1 rk2 : nat -> nat) :
+  length G = n ->
+  (forall x y, In y (nth x R1 []) -> y < n) -> (forall x y, In y (nth x R1 []) -> rk1 y < rk1 x) ->
+  (forall x, x < n -> rk1 x < S n) ->
+  (forall x y, In y (nth x R2 []) -> y < n) -> (forall x y, In y (nth x R2 []) -> rk2 y < rk2 x) ->
+  (forall x, x < n -> rk2 x < S n) ->
+  exists H1 F1' F2,
+    digraph_twice n R1 R2 G = Some (F1', F2) /\ length H1 = n /\
+    (forall x, x < n -> forall t, In t (nth x H1 []) <-> ls R1 G x t) /\
+    (forall x, x < n -> forall t, In t (nth x F2 []) <-> ls R2 H1 x t).
+Proof. exact (digraph_twice_acyclic n R1 R2 G rk1 rk2). Qed.
+Print Assumptions C02_digraph_twice_acyclic.
+
+(* With a cycle in the first relation the code is NOT the least solution: nodes 0,1 form a reads-cycle
+   and share one Read set object; the second call's update for node 0 (0 includes 2) is visible
+   through node 1.  lark computes the same as the coded model (stream digraph-coded-twice). *)
+Example C02_digraph_twice_aliasing_refuted :
+  digraph_twice 3 [[1]; [0]; []] [[2]; []; []] [[0]; [1]; [2]]
+  = Some ([[0; 1; 2]; [0; 1; 2]; [2]], [[0; 1; 2]; [0; 1; 2]; [2]]) /\
+  ~ ls [[2]; []; []] [[0; 1]; [0; 1]; [2]] 1 2.
+Proof. exact digraph_twice_aliasing_refuted. Qed.
+
+(* NOT PROVED (open, kept as full statements): for ARBITRARY relations (cycles, hence non-trivial SCCs,
+   low-link updates and the pop loop) - (a) one call with one object per node computes exactly the
+   least solution; (b) with any aliasing the least solution is still CONTAINED in the result (the
+   direction completeness of the parser needs).  Both are validated per run on random cyclic graphs by
+   the single-call stream (coded = specification closure = lark).  Missing lemma: the Tarjan stack
+   invariant "when N[x] = d after the loop, the nodes above x on S are exactly the SCC of x and the
+   cell of x holds the union of G over everything reachable from x". *)
+Definition C02_digraph_coded_exact_full_statement : Prop :=
+  forall (n : nat) (R G : list (list nat)), length G = n ->
+  (forall x y, In y (nth x R []) -> y < n) ->
+  exists F H, digraph_coded n R (seq 0 n) G = Some (F, H) /\
+              forall x, x < n -> forall t, In t (fset F H x) <-> ls R G x t.
+
+Definition C02_digraph_complete_full_statement : Prop :=
+  forall (n : nat) (R : list (list nat)) (gc : list nat) (H0 : list (list nat)),
+  length gc = n -> (forall x, x < n -> nth x gc 0 < length H0) ->
+  (forall x y, In y (nth x R []) -> y < n) ->
+  exists F H, digraph_coded n R gc H0 = Some (F, H) /\
+              forall x, x < n -> forall t, ls R (map (fun c => nth c H0 []) gc) x t -> In t (fset F H x).
 
 (* Non-vacuity: the grammar of finding F13 (LALR(1), shared core {b: B., e2: B.}):
      start: a E | c | Y e2 D    a: Y b    c: Y a D    b: B    e2: B
